@@ -238,9 +238,11 @@ def identOk (s : String) : Bool :=
   | 'r' :: '#' :: _ => false
   | _ => true
 
-/-- the function names of the input are lexically valid identifiers -/
+/-- the function names of the input are lexically valid identifiers (and, in an impl block, none
+    is the macro's reserved binder `__impl`) -/
 def Item.identsOk : Item → Bool
   | .trait t => t.members.all (fun m => match m with | .fn f => identOk f.sig.ident | _ => true)
+  | .impl m => (Item.impl m).sourceFns.all (fun f => identOk f.sig.ident && unraw f.sig.ident != "__impl")
   | item => item.sourceFns.all (fun f => identOk f.sig.ident)
 
 /-! ## C01 — a generated method calls its own function, with the receiver and the arguments in order -/
@@ -255,7 +257,11 @@ def methodCallsFn (noDeps : Bool) (selfScoped : Bool) (src : FnItem) (m : GenMem
           c.await == src.sig.async_ &&
           c.args == (if noDeps then [] else [if selfScoped then "__impl" else "self"]) ++ (if selfScoped then ps.drop 1 else ps) &&
           allPlain sig.inputs && !(ps.map unraw).contains (unraw sig.ident) &&
-          (nodup (ps.map unraw) || !nodup (((typedArgs (src.sig.userParams noDeps)).filterMap FnArg.providedName).map unraw)) &&
+          -- (source bindings that collide among themselves, or with the macro's own binder `__impl`,
+          --  are not valid input)
+          (nodup (ps.map unraw) ||
+            !nodup ((if selfScoped then ["__impl"] else []) ++
+              ((typedArgs (src.sig.userParams noDeps)).filterMap FnArg.providedName).map unraw)) &&
           (typedArgs sig.inputs).length == (typedArgs (src.sig.userParams noDeps)).length + (if selfScoped then 1 else 0)
       | none => false
   | _ => false
@@ -325,7 +331,7 @@ def P_C16 (v : Variant) (attr : Toks) (item : Item) (view : View) : Bool :=
             match g.sig? with
             | some sig => paramNamesOk src.sig.ident (typedArgs src.sig.inputs) sig
             | none => false)
-            (t.members.filterMap (fun mm => match mm with | .fn f => some f | _ => none)) m.members
+            t.fns m.members
       | none => false
 
 /-! ## C08 — module mode: one method per non-private function, in order; trait visible to the parent -/
@@ -427,7 +433,7 @@ def P_C18 (item : Item) (view : View) : Bool :=
       match mainImpl? view with
       | some m =>
           zipAll (fun (srcFn : TraitFnItem) g => g.attrs == srcFn.attrs)
-            (t.members.filterMap (fun mm => match mm with | .fn f => some f | _ => none)) m.members
+            t.fns m.members
       | none => false
 
 /-! ## syn-stable inputs
@@ -644,8 +650,6 @@ def P_C05 (v : Variant) (attr : Toks) (item : Item) (view : View) : Bool :=
 
 /-! ## C06 / C07 — entraited traits: forwarding through `Impl<T>` -/
 
-def TraitItem.fns (t : TraitItem) : List TraitFnItem :=
-  t.members.filterMap (fun mm => match mm with | .fn f => some f | _ => none)
 
 def TraitItem.containsAsync (t : TraitItem) : Bool := t.fns.any (·.sig.async_)
 
@@ -720,65 +724,81 @@ def F_C06_send (attr : Toks) (item : Item) (view : View) : Bool :=
 
 def implTarget (it : String) : Toks := [i it, p '<', i entraitT, p '>']
 
-def P_C07 (v : Variant) (attr : Toks) (item : Item) (view : View) : Bool :=
+/-- a method of the static delegation-target trait: the receiver is replaced by `__impl` -/
+def staticTargetMemberOk (src : TraitFnItem) (g : GenMember) : Bool :=
+  match g with
+  | .fn as sig none =>
+      as == src.attrs && sig.ident == src.sig.ident &&
+      (match src.sig.inputs, sig.inputs with
+       | .recv _ r _ _ :: srest, .typed [] (.ident false false "__impl" none) ty :: grest =>
+           ty == (match r with | some lt => Ty.ref_ lt false implPathTy | none => implPathTy) &&
+           srest == grest
+       | si, gi => !(si.head?.map FnArg.isRecv).getD false && si == gi)
+  | _ => false
+
+/-- a method of the dynamic delegation-target trait: `__impl` follows the receiver -/
+def dynTargetMemberOk (src : TraitFnItem) (g : GenMember) : Bool :=
+  match g with
+  | .fn as sig none =>
+      as == src.attrs && sig.ident == src.sig.ident &&
+      (match src.sig.inputs, sig.inputs with
+       | .recv a1 r m c :: srest, g0 :: g1 :: grest =>
+           g0 == .recv a1 r m c && g1 == implReceiverArg && srest == grest
+       | si, gi => !(si.head?.map FnArg.isRecv).getD false && si == gi)
+  | _ => false
+
+def selectorTrait (d it : String) : GenTrait :=
+  { vis := [i "pub"], ident := d, params := [.ty [] "T" [] false none],
+    members := [.raw [i "type", i "Target", p ':', i it, p '<', i "T", p '>', p ';']] }
+
+/-- header of a delegation-target trait: `it<EntraitT, ..>: 'static` with the trait's predicates -/
+def delegTraitHeaderOk (t : TraitItem) (it : String) (dt : GenTrait) : Bool :=
+  dt.ident == it && dt.params == entraitTParam :: t.generics.params &&
+  dt.colon && dt.supertraits == [staticToks] && dt.preds == t.generics.preds
+
+/-- what `T` must provide for dynamic selection: `AsRef<dyn it<EntraitT> [+ Sync]>` (+ only fixed extras) -/
+def dynWherePredOk (b : Bool) (it : String) (t : TraitItem) (q : Option WherePred) : Bool :=
+  match q with
+  | some (.ty [] bounded (first :: extras) false) =>
+      bounded == entraitTTy &&
+      first == (if b then borrowPath else asRefPath) ++ [p '<'] ++ dynTarget it t.containsAsync ++ [p '>'] &&
+      extras.all (fun e => fixedExtras.contains e || (e == sendToks && t.containsAsync))
+  | _ => false
+
+/-- trait side of dependency inversion -/
+def P_C07_trait (a : TraitAttr) (t : TraitItem) (rest : List GenTrait) (im : GenImpl) : Bool :=
+  match a.implTrait, a.delegation with
+  | some (_, it), some (.byTrait d) =>
+      (match rest with
+       | [dt, sel] =>
+           delegTraitHeaderOk t it dt && zipAll staticTargetMemberOk t.fns dt.members && sel == selectorTrait d it
+       | _ => false) &&
+      implHeaderOk t im && forwardsAll a t im &&
+      im.preds.head? == some (.ty [] entraitTTy [[i d, p '<', i entraitT, p '>'], syncToks, staticToks] false)
+  | some (_, it), some (.byRef b) =>
+      (match rest with
+       | [dt] => delegTraitHeaderOk t it dt && zipAll dynTargetMemberOk t.fns dt.members
+       | _ => false) &&
+      implHeaderOk t im && forwardsAll a t im && dynWherePredOk b it t im.preds.head?
+  | _, _ => true
+
+/-- impl-block side of dependency inversion -/
+def P_C07_impl (dynRef : Bool) (m : ImplItemIn) (srcs : List FnItem) (im : GenImpl) : Bool :=
+  zipAll (fun src g => methodCallsFn false true src g) srcs im.members &&
+  im.selfTy == m.selfTy &&
+  (m.traitPath ++ [p '<', i entraitT]).isPrefixOf im.traitRef &&
+  implTParamOk (dynRef && srcs.any (·.sig.depByValue)) im.params &&
+  wherePredsOk implPathTy (srcs.flatMap (·.sig.declaredDepBounds)) (srcs.flatMap (·.sig.generics.preds)) im.preds
+
+def P_C07 (attr : Toks) (item : Item) (view : View) : Bool :=
   match item with
   | .trait t =>
       match parseTraitAttr attr, traitsOf view.items, mainImpl? view with
-      | .ok a, _main :: rest, some im =>
-          match a.implTrait, a.delegation with
-          | some (_, it), some (.byTrait d) =>
-              (match rest with
-               | [dt, sel] =>
-                   dt.ident == it && dt.params == entraitTParam :: t.generics.params &&
-                   dt.colon && dt.supertraits == [staticToks] && dt.preds == t.generics.preds &&
-                   zipAll (fun (src : TraitFnItem) g => match g with
-                     | .fn as sig none =>
-                         as == src.attrs && sig.ident == src.sig.ident &&
-                         (match src.sig.inputs, sig.inputs with
-                          | .recv _ r _ _ :: srest, .typed [] (.ident false false "__impl" none) ty :: grest =>
-                              ty == (match r with | some lt => Ty.ref_ lt false implPathTy | none => implPathTy) &&
-                              srest == grest
-                          | si, gi => !(si.head?.map FnArg.isRecv).getD false && si == gi)
-                     | _ => false) t.fns dt.members &&
-                   sel == { vis := [i "pub"], ident := d, params := [.ty [] "T" [] false none],
-                            members := [.raw [i "type", i "Target", p ':', i it, p '<', i "T", p '>', p ';']] }
-               | _ => false) &&
-              implHeaderOk t im && forwardsAll a t im &&
-              im.preds.head? == some (.ty [] entraitTTy [[i d, p '<', i entraitT, p '>'], syncToks, staticToks] false)
-          | some (_, it), some (.byRef b) =>
-              (match rest with
-               | [dt] =>
-                   dt.ident == it && dt.params == entraitTParam :: t.generics.params &&
-                   dt.colon && dt.supertraits == [staticToks] && dt.preds == t.generics.preds &&
-                   zipAll (fun (src : TraitFnItem) g => match g with
-                     | .fn as sig none =>
-                         as == src.attrs && sig.ident == src.sig.ident &&
-                         (match src.sig.inputs, sig.inputs with
-                          | .recv a1 r m c :: srest, g0 :: g1 :: grest =>
-                              g0 == .recv a1 r m c && g1 == implReceiverArg && srest == grest
-                          | si, gi => !(si.head?.map FnArg.isRecv).getD false && si == gi)
-                     | _ => false) t.fns dt.members
-               | _ => false) &&
-              implHeaderOk t im && forwardsAll a t im &&
-              (match im.preds.head? with
-               | some (.ty [] bounded (first :: extras) false) =>
-                   bounded == entraitTTy &&
-                   first == (if b then borrowPath else asRefPath) ++ [p '<'] ++ dynTarget it t.containsAsync ++ [p '>'] &&
-                   extras.all (fun e => fixedExtras.contains e || (e == sendToks && t.containsAsync))
-               | _ => false)
-          | _, _ => true
+      | .ok a, _main :: rest, some im => P_C07_trait a t rest im
       | _, _, _ => false
   | .impl m =>
       match parseImplAttr attr, mainImpl? view with
-      | .ok a, some im =>
-          let srcs := item.sourceFns
-          zipAll (fun src g => methodCallsFn false true src g) srcs im.members &&
-          im.selfTy == m.selfTy &&
-          (m.traitPath ++ [p '<', i entraitT]).isPrefixOf im.traitRef &&
-          implTParamOk (a.dynRef && srcs.any (·.sig.depByValue)) im.params &&
-          wherePredsOk implPathTy (srcs.flatMap (·.sig.declaredDepBounds))
-            (srcs.flatMap (·.sig.generics.preds)) im.preds &&
-          (v == v)
+      | .ok a, some im => P_C07_impl a.dynRef m item.sourceFns im
       | _, _ => false
   | _ => true
 
@@ -894,7 +914,7 @@ def asyncDeclOkM (hasAT send : Bool) (src : Sig) (m : GenMember) : Bool :=
 def isSelectorLike (t : GenTrait) : Bool := t.members.all (fun m => m.sig?.isNone) && t.members.length ≤ 1
 
 def Item.srcSigs : Item → List Sig
-  | .trait t => (t.members.filterMap (fun mm => match mm with | .fn f => some f | _ => none)).map (·.sig)
+  | .trait t => t.fns.map (·.sig)
   | item => item.sourceFns.map (·.sig)
 
 def P_C12 (v : Variant) (attr : Toks) (item : Item) (view : View) : Bool :=
